@@ -293,9 +293,13 @@ def main(mod):
                                          "broken": broken, "seed": seed})
         lines.append("VIOLATION property=%s replay=%s no-failing-input-found" % (prop, path))
 
+    seen_known = {}
     for fid, text in ctx.known_hits:
+        seen_known.setdefault(fid, [text, 0])[1] += 1
+    for fid in sorted(seen_known):
         if fid in known_ids:
-            print("KNOWN-FINDING: property=%s %s %s" % (prop, fid, text))
+            text, cnt = seen_known[fid]
+            print("KNOWN-FINDING: property=%s %s %s%s" % (prop, fid, text, " (re-confirmed %d times in this run)" % cnt if cnt > 1 else ""))
     write_evidence(ctx, mod, proof, len(lines), build_error)
     print("%s tier=%s seed=%d evaluations=%d distinct_nontrivial=%d obligations=%s discharged=%s disagreements=%d wall=%.1fs"
           % (prop, ctx.tier, seed, ctx.evaluations, len(ctx.nontrivial),
